@@ -177,24 +177,35 @@ func (w *world) recordSnap() {
 	w.log = append(w.log, obsT{K: "snap", Snap: s, Next: next, act: "ASnap", coq: hx.App("OSnap", st, hx.Nat(next))})
 }
 
+// Tick follows the script while it lasts (one tick per cycle up to the horizon) and
+// afterwards behaves like an ordinary component: it runs when notified, retries
+// blocked sends, drains DrainTail messages per tick and reports progress when it
+// sent or retrieved something - so a receiver with DrainTail > 0 drains its input
+// completely and the run ends only when nothing more can happen.
 func (a *agent) Tick() bool {
 	cycle := int(a.w.engine.CurrentTime() / 1000)
+	did := false
 	for a.nextSnd < len(a.plan.Sends) && a.plan.Sends[a.nextSnd].Cycle <= cycle {
 		before := len(a.w.log)
 		a.w.doSend(a.idx, a.plan.Sends[a.nextSnd].M)
 		if r := a.w.log[before]; r.OK == nil || !*r.OK {
-			break // blocked: retry next cycle
+			break // blocked: retry when the port frees up / next cycle
 		}
 		a.nextSnd++
+		did = true
 	}
 	d := a.plan.DrainTail
 	if cycle < len(a.plan.Drain) {
 		d = a.plan.Drain[cycle]
 	}
 	for k := 0; k < d; k++ {
+		before := len(a.w.log)
 		a.w.doRet(a.idx)
+		if a.w.log[before].M != nil {
+			did = true
+		}
 	}
-	return cycle < a.horizon
+	return did || cycle < a.horizon
 }
 
 type engHook struct{ w *world }
@@ -318,7 +329,20 @@ func run(raw json.RawMessage) (hx.Case, error) {
 		tags["deliveries:10+"] = true
 	}
 	c := hx.Case{Obs: w.log}
-	c.Coq = hx.App("mk_case", hx.L(caps), hx.L(terms))
+	quiescent := in.Mode == "engine" && !w.broken
+	if quiescent {
+		tags["quiescent-scan"] = true
+	}
+	asym := false
+	for _, cp := range in.Caps {
+		if cp[0] != cp[1] {
+			asym = true
+		}
+	}
+	if asym {
+		tags["ports:asymmetric-capacities"] = true
+	}
+	c.Coq = hx.App("mk_case", hx.L(caps), hx.B(quiescent), hx.L(terms))
 	for t := range tags {
 		c.Tags = append(c.Tags, t)
 	}
@@ -489,6 +513,22 @@ func gen(r *hx.Rand, tier string) []json.RawMessage {
 	}
 	out = append(out, hx.J(input{Mode: "direct", Caps: [][2]int64{{1, 2}, {1, 1}}, Acts: []actIn{
 		{K: "send", I: 0, M: mk(1, 0, 1)}, {K: "send", I: 0, M: mk(2, 0, 5)}, {K: "tick"}, {K: "ret", I: 1}, {K: "tick"}}}))
+	// engine-driven, run to quiescence: one sender bursts at one receiver that stalls and then resumes, for
+	// every combination of (incoming, outgoing) capacities 1..3 on the receiver and two shapes of sender port
+	for ri := int64(1); ri <= 3; ri++ {
+		for ro := int64(1); ro <= 3; ro++ {
+			for _, sc := range [][2]int64{{1, 3}, {3, 1}} {
+				var a0, a1 agentIn
+				for k := 0; k < 7; k++ {
+					a0.Sends = append(a0.Sends, sendPlan{Cycle: 0, M: *mk(uint64(k+1), 0, 1)})
+				}
+				a0.DrainTail = 1
+				a1.Drain = []int{0, 0, 0, 0, 0, 0, 0, 0}
+				a1.DrainTail = 1
+				out = append(out, hx.J(input{Mode: "engine", Caps: [][2]int64{sc, {ri, ro}}, Agents: []agentIn{a0, a1}, Horizon: 3}))
+			}
+		}
+	}
 	for len(out) < n {
 		if r.Chance(1, 2) {
 			out = append(out, hx.J(genDirect(r, tier)))
@@ -544,7 +584,11 @@ func init() {
 			"is the order in which sends, retrievals and connection ticks really happened (engine AfterEvent hook), deliveries " +
 			"are recorded by port hooks; (b) 'direct': by arbitrary sequences of Send / RetrieveIncoming / conn.Tick() calls " +
 			"(ticks with nothing to do, many sends between ticks, stalled receivers); directed scripts: head-of-line blocking, " +
-			"all ports to one destination, unplugged destination (tick panics). Non-trivial: >= 5 deliveries from >= 2 sources " +
+			"all ports to one destination, unplugged destination (tick panics), and engine runs of a bursting sender against a " +
+			"receiver that stalls and then resumes for every (incoming, outgoing) capacity pair 1..3 x 1..3. Engine runs go on " +
+			"until the event queue is exhausted (after the scripted horizon the agents act like ordinary components: tick when " +
+			"notified, retry blocked sends, drain, report progress) and are then scanned: no outgoing head whose destination " +
+			"has room may be left. Non-trivial: >= 5 deliveries from >= 2 sources " +
 			"and at least one tick that left a message blocked in an outgoing buffer. Distinct = distinct input hash.",
 		Gen: gen, Run: run, Shrink: shrink,
 	})
